@@ -144,7 +144,8 @@ def oracle(ctx, budget=1, replay=None, hints=None):
         x0r, y0r = hreg.state.position.X_AXIS.current, hreg.state.position.Y_AXIS.current
         if abs(x0r - mx) < 2.5 and abs(y0r - my) < 2.5:
             continue
-        res = impl.run(hreg, ['%s X%.4f Y%.4f I%.4f J%.4f' % ('G3' if sweep > 0 else 'G2', x1, y1, cx - x0r, cy - y0r)])
+        code = ctx.rng.choice(['G3', 'G3', 'G03', 'G003'] if sweep > 0 else ['G2', 'G2', 'G02', 'G002'])     # the host passes the code as written
+        res = impl.run(hreg, ['%s X%.4f Y%.4f I%.4f J%.4f' % (code, x1, y1, cx - x0r, cy - y0r)])
         if res[0][1] != 'suppress':
             fails.append(dict(what='an arc passing 1.5 units deep through a region is not excluded (%s)' % res[0][1], signature='C16:arc-not-excluded',
                               case=dict(start=[x0r, y0r], end=[x1, y1], centre=[cx, cy], region=[mx - 1.5, my - 1.5, mx + 1.5, my + 1.5])))
